@@ -232,3 +232,150 @@ def mentions_self_field(e, names):
             if root[0] == 'param' and root[2] == 1 and ch and ch[0] in names:
                 return True
     return False
+
+
+# --- constant string evaluation -----------------------------------------------------------------
+
+def string_values(prog, body, e, depth=0):
+    """set of constant strings `e` may evaluate to, or None if not statically known.
+    Path::join(base, x) yields the values of x (last component)."""
+    if depth > 8:
+        return None
+    e = peel(e, calls=False)
+    k = e[0]
+    if k == 'str':
+        return {e[1]}
+    if k == 'phi':
+        out = set()
+        for x in e[1]:
+            v = string_values(prog, body, x, depth + 1)
+            if v is None:
+                return None
+            out |= v
+        return out
+    if k == 'field' and e[2] == '0':
+        v = peel(e[1], calls=False)
+        if v[0] == 'variant' and v[2] == 'Some':
+            c = peel(v[1], calls=False)
+            if c[0] == 'call' and c[1].endswith('::next'):
+                it = peel(c[2][0])
+                if it[0] == 'aggr' and it[1] == 'array':
+                    out = set()
+                    for _, x in it[3]:
+                        sv = string_values(prog, body, x, depth + 1)
+                        if sv is None:
+                            return None
+                        out |= sv
+                    return out
+        return None
+    if k == 'call':
+        name = e[1]
+        if re.search(r'Path::join|PathBuf::join', name):
+            return string_values(prog, body, e[2][1], depth + 1)
+        if re.search(r'fmt::format$|hint::must_use', name):
+            return string_values(prog, body, e[2][0], depth + 1)
+        if re.search(r'fmt::Arguments::<.*>::(new|from_str|from_str_nonconst)$', name):
+            b = prog.bodies.get(e[3][0]) or body
+            cs = b.call_at.get(e[3][1])
+            f = mir.decode_fmt(b, cs)
+            outs = {''}
+            for p in f.pieces:
+                if p[0] == 'lit':
+                    outs = {o + p[1] for o in outs}
+                else:
+                    if p[1] != 'Display' or not p[2]['default']:
+                        return None
+                    sv = string_values(prog, body, p[3], depth + 1)
+                    if sv is None:
+                        return None
+                    outs = {o + s2 for o in outs for s2 in sv}
+            return outs
+        if mir.is_transparent_call(name) and e[2]:
+            return string_values(prog, body, e[2][0], depth + 1)
+    return None
+
+
+def fmt_in(prog, body, e):
+    """first format site found inside expression e (or None)."""
+    for c in mir.calls_in(e, lambda nme: re.search(r'fmt::Arguments::<.*>::(new|from_str|from_str_nonconst)$', nme)):
+        b = prog.bodies.get(c[3][0]) or body
+        cs = b.call_at.get(c[3][1])
+        if cs is not None:
+            return mir.decode_fmt(b, cs)
+    return None
+
+
+def expand_params(prog, body, e, depth=2):
+    """if `e` mentions parameters of `body` and body is an ordinary (non-trait-entry) local fn,
+    return the list of expressions obtained by substituting each caller's arguments."""
+    if depth == 0 or body.impl_trait or not mir.contains(e, lambda x: x[0] == 'param' and x[1] == body.path):
+        return [(body, e)]
+    callers = prog.callers_of(body)
+    if not callers:
+        return [(body, e)]
+    out = []
+    for cs in callers:
+        mapping = {i + 1: cs.body.op_expr(a) for i, a in enumerate(cs.args)}
+        out.extend(expand_params(prog, cs.body, mir.subst(e, mapping), depth - 1))
+    return out
+
+
+def result_is_consumed(body, cs, _depth=0):
+    """is the Result returned by call `cs` looked at?  (propagated with ?, matched, unwrapped,
+    returned, or handed to another function).  `.ok()`/`.is_ok()` whose own result is unused, an
+    unused temporary, or `let _ =` count as dropped."""
+    d = cs.dest
+    if d['p']:
+        return True  # stored into a place: visible to later code
+    if d['l'] == 0:
+        return True
+    uses = body.real_uses(d['l'])
+    if not uses:
+        return False
+    for bb, idx, how in uses:
+        if idx == 'term':
+            t = body.blocks[bb]['term']
+            if t['k'] == 'call':
+                c2 = body.call_at[bb]
+                if re.search(r'Result::<.*>::(ok|err|is_ok|is_err)$|Result::(ok|err|is_ok|is_err)$', c2.name):
+                    if _depth < 3 and result_is_consumed(body, c2, _depth + 1):
+                        return True
+                    continue
+                return True
+            return True
+        else:
+            st = body.blocks[bb]['stmts'][idx]
+            # moved into another local: follow
+            if st['k'] == 'assign' and st['rv']['k'] == 'use' and not st['place']['p']:
+                l2 = st['place']['l']
+                if l2 == 0 or body.real_uses(l2):
+                    return True
+                continue
+            return True
+    return False
+
+
+def crel(r):
+    """canonical string of a normalised relation"""
+    if r[0] == 'bool':
+        return '%s%s' % ('' if r[2] else '!', mir.canon(r[1]))
+    if r[0] == 'is':
+        return '%s is %s' % (mir.canon(r[1]), '|'.join(r[2]))
+    if r[0] in ('eq', 'ne') and isinstance(r[2], tuple) and r[2] and not isinstance(r[2][0], str):
+        return '%s %s {%s}' % (mir.canon(r[1]), 'in' if r[0] == 'eq' else 'notin', ','.join(str(x) for x in r[2]))
+    sym = {'lt': '<', 'le': '<=', 'eq': '==', 'ne': '!='}[r[0]]
+    return '%s %s %s' % (mir.canon(r[1]), sym, mir.canon(r[2]))
+
+
+def guards_at(body, bb):
+    """canonical strings of the relations that must hold at entry of bb"""
+    return sorted(set(crel(r) for r in facts_to_rels(body.facts_at(bb))))
+
+
+def int_width(ty):
+    m = re.match(r'^[ui](\d+)$', ty)
+    if m:
+        return int(m.group(1))
+    if ty in ('usize', 'isize'):
+        return 64
+    return None
